@@ -240,9 +240,16 @@ func (c *drawCtx) slice(t reflect.Type, label string) (reflect.Value, string) {
 	return s, cl
 }
 
-// bigInt draws a scalar from the integer lattice around the group order, both signs. Scalars longer
-// than the order are reduced: wider scalars are the subject of C03 (finding F2 lives there).
+// bigInt draws a scalar from the integer lattice around the group order, both signs; a quarter of the draws are
+// much longer than the order.
 func (c *drawCtx) bigInt(label string) (*big.Int, string) {
+	if rapid.IntRange(0, 3).Draw(c.t, label+"wide") == 0 {
+		// scalars much longer than the order (both signs): the "operands are left unchanged" clause also covers them
+		// (a pre-reduction written into the caller's integer only shows on over-long scalars); F2 is repaired, and a
+		// call that panics on distinct and aliased operands alike is counted, not failed
+		v, cl := gen.Int(c.t, c.w.mod, 2*c.w.mod.BitLen()+70, label)
+		return v, "wide:" + cl
+	}
 	v, cl := gen.Int(c.t, c.w.mod, c.w.mod.BitLen(), label)
 	if v.BitLen() > c.w.mod.BitLen() {
 		v.Rem(v, c.w.mod)
